@@ -581,7 +581,7 @@ func (x *Exec) callMods(c *ssa.CallCommon, li *loopInfo, seen map[*ssa.Function]
 		li.allocs = true
 		return
 	}
-	if fc := x.prog.contractFor(callee); fc != nil && !fc.Inline && !fc.InlineAtCalls && !x.inlineHere(fc) {
+	if fc := x.prog.contractFor(callee); fc != nil && !fc.Inline && (!fc.InlineAtCalls || x.contractHere(fc)) && !x.inlineHere(fc) {
 		if modifiesEverything(fc) {
 			li.modAll = true
 			li.modAllOK = true
@@ -1471,7 +1471,15 @@ func (x *Exec) evalInstr(st *State, in ssa.Instruction) SV {
 			p := x.value(st, i.X)
 			if p.Dyn != nil && p.Dyn.K == KSeq && p.Loc == nil {
 				if _, isArr := i.Type().Underlying().(*types.Array); isArr {
-					if refs := i.Referrers(); refs == nil || len(*refs) == 0 {
+					used := false
+					if refs := i.Referrers(); refs != nil {
+						for _, r := range *refs {
+							if _, dbg := r.(*ssa.DebugRef); !dbg {
+								used = true
+							}
+						}
+					}
+					if !used {
 						// the value of a range expression over a local array that only the index
 						// is taken from: loaded by the SSA builder, never used
 						return SV{K: KInt, T: IntC(0), Ty: i.Type()}
